@@ -688,12 +688,20 @@ class Blockwise(ArrayExpr):
                     new_args.extend([arg, arg_ind])
                 else:
                     arg_slices = []
-                    for dim_idx in arg_ind:
+                    for axis, dim_idx in enumerate(arg_ind):
                         try:
                             out_pos = out_ind.index(dim_idx)
-                            arg_slices.append(slice_index[out_pos])
                         except ValueError:
                             arg_slices.append(slice(None))
+                            continue
+                        idx = slice_index[out_pos]
+                        if arg.shape[axis] == 1 and self.shape[out_pos] != 1 and idx != slice(None):
+                            # A size-1 axis broadcast against a longer output
+                            # axis serves every position: keep it whole unless
+                            # the selection is empty.
+                            selected = range(*idx.indices(self.shape[out_pos]))
+                            idx = slice(None) if len(selected) else slice(0, 0)
+                        arg_slices.append(idx)
 
                     sliced_arg = new_collection(arg)[tuple(arg_slices)]
                     new_args.extend([sliced_arg.expr, arg_ind])
@@ -802,6 +810,21 @@ class Blockwise(ArrayExpr):
         args = self.args
         new_args = []
 
+        # "Output block i is computed from input block i" holds for operands
+        # that share one grid along an index.  Until lowering has unified them
+        # they need not, so block ranges are only mapped when they do.  (A
+        # size-1 axis broadcasts; it is kept whole below.)
+        grids = {}
+        for i in range(0, len(args), 2):
+            arg, arg_ind = args[i], args[i + 1]
+            if arg_ind is None or not hasattr(arg, "_meta"):
+                continue
+            for dim_idx, in_ind in enumerate(arg_ind):
+                if in_ind in out_ind and block_ranges[out_ind.index(in_ind)] is not None and arg.shape[dim_idx] != 1:
+                    grids.setdefault(in_ind, set()).add(arg.chunks[dim_idx])
+        if any(len(g) > 1 for g in grids.values()):
+            return None
+
         for i in range(0, len(args), 2):
             arg = args[i]
             arg_ind = args[i + 1]
@@ -824,6 +847,8 @@ class Blockwise(ArrayExpr):
                             first, last = br
                             if last < first:  # Empty
                                 arg_slices.append(slice(0, 0))
+                            elif arg.shape[dim_idx] == 1:  # Broadcast: serves every block
+                                arg_slices.append(slice(None))
                             else:
                                 in_cumsum = list(cached_cumsum(arg.chunks[dim_idx], initial_zero=True))
                                 arg_slices.append(slice(in_cumsum[first], in_cumsum[last + 1]))
